@@ -616,6 +616,269 @@ func c11FlushFull(id int, qcap int, withDeadlineMs int, dir string) (c c11Case) 
 	return
 }
 
+// Flush when sendCh is full: wakeUpPeer's slow path does `s.sendCh <- sendReady{...}` without select.
+// The peer stops consuming (its event loop - the process-wide dispatcher - is held), shared memory is
+// exhausted so writes travel over the socket, the socket fills, the send loop blocks in write holding
+// `writing`, every further fallback write times out but leaves its item in sendCh (4096 slots).  Then a
+// Flush whose put succeeds must wake the peer: CAS(writing) fails -> slow path -> blocks for ever.
+func c11SendChFull(id int, dir string) (c c11Case) {
+	c = c11Case{ID: id, Kind: "flush-sendch-full", Param: 4096}
+	cb := &c11BlockingCb{entered: make(chan struct{}), release: make(chan struct{})}
+	released := false
+	rel := func() {
+		if !released {
+			released = true
+			close(cb.release)
+		}
+	}
+	clientA, serverA, err := c11Pair(dir, nil, nil)
+	if err != nil {
+		c.Skip = err.Error()
+		return
+	}
+	clientB, serverB, err := c11Pair(dir, nil, func(cf *Config) { cf.listenCallback = cb })
+	if err != nil {
+		clientA.Close()
+		serverA.Close()
+		c.Skip = err.Error()
+		return
+	}
+	defer func() {
+		rel()
+		time.Sleep(50 * time.Millisecond)
+		clientA.Close()
+		serverA.Close()
+		clientB.Close()
+		serverB.Close()
+	}()
+	data, _, err := c11Streams(clientA, serverA)
+	if err != nil {
+		c.Skip = "stream setup: " + err.Error()
+		return
+	}
+	probe, _, err := c11Streams(clientA, serverA)
+	if err != nil {
+		c.Skip = "stream setup: " + err.Error()
+		return
+	}
+	// the probe stream holds one shared-memory slice, written but not flushed yet
+	if _, err = probe.BufferWriter().WriteBytes([]byte("probe")); err != nil {
+		c.Skip = "probe write: " + err.Error()
+		return
+	}
+	// 1. exhaust the shared memory (the server application never reads): writes start to travel over the socket
+	chunk := make([]byte, 64*1024)
+	for i := 0; i < 64 && atomic.LoadUint64(&clientA.stats.fallbackWriteCount) == 0; i++ {
+		if _, err = data.Write(chunk); err != nil {
+			c.Skip = "exhausting shm: " + err.Error()
+			return
+		}
+	}
+	if atomic.LoadUint64(&clientA.stats.fallbackWriteCount) == 0 {
+		c.Skip = "could not exhaust the shared memory"
+		return
+	}
+	// 2. the peer has consumed the whole queue: its working flag is clear
+	end := time.Now().Add(c11Bound)
+	for (clientA.sendQueue().consumerIsWorking() || clientA.sendQueue().size() != 0) && time.Now().Before(end) {
+		time.Sleep(time.Millisecond)
+	}
+	if clientA.sendQueue().consumerIsWorking() {
+		c.Skip = "peer did not go idle"
+		return
+	}
+	// 3. the peer stops consuming: hold the dispatcher inside session B's OnNewStream
+	bst, err := clientB.OpenStream()
+	if err == nil {
+		_, err = bst.Write([]byte{1})
+	}
+	if err != nil {
+		c.Skip = "session B: " + err.Error()
+		return
+	}
+	select {
+	case <-cb.entered:
+	case <-time.After(c11Bound):
+		c.Skip = "OnNewStream was not called"
+		return
+	}
+	// 4. fill the socket, then sendCh (from here on a write that cannot be sent gives up after 2 ms)
+	clientA.config.ConnectionWriteTimeout = 2 * time.Millisecond
+	timeouts := 0
+	for i := 0; i < 200 && timeouts == 0; i++ {
+		if _, err = data.Write(chunk); err == ErrConnectionWriteTimeout {
+			timeouts++
+		} else if err != nil {
+			c.Skip = "filling the socket: " + err.Error()
+			return
+		}
+	}
+	if timeouts == 0 {
+		c.Skip = "socket did not fill"
+		return
+	}
+	one := []byte{7}
+	for i := 0; i < 3*cap(clientA.sendCh) && len(clientA.sendCh) < cap(clientA.sendCh); i++ {
+		data.Write(one)
+	}
+	if len(clientA.sendCh) < cap(clientA.sendCh) {
+		c.Skip = fmt.Sprintf("sendCh not full: %d of %d", len(clientA.sendCh), cap(clientA.sendCh))
+		return
+	}
+	if clientA.sendQueue().consumerIsWorking() {
+		c.Skip = "the peer's working flag is set: wakeUpPeer would not take the slow path"
+		return
+	}
+	// 5. the call under test: the queue is NOT full, the put succeeds, the peer must be woken
+	t := time.Now()
+	ch := c11Call(func() (int, error) { return 0, probe.Flush(false) })
+	ret := c11Await(ch, 1500*time.Millisecond)
+	if ret == nil {
+		c.Class = 8
+		c.fail("flush-sendch-full: Flush blocks for ever in wakeUpPeer's unbounded `s.sendCh <- ...` when sendCh is full and the send loop is stuck behind a peer that stopped consuming")
+		// let the peer run again: everything drains and the Flush returns
+		rel()
+		if c11Await(ch, 3*c11Bound) == nil {
+			c.fail("flush-sendch-full: Flush still blocked after the peer resumed")
+		}
+	} else {
+		c.record(ret, t, 0, 9)
+	}
+	return
+}
+
+// ---------------------------------------------------------------------------------------------
+// callback mode: a read blocked INSIDE OnData
+// ---------------------------------------------------------------------------------------------
+type c11DataCb struct {
+	entered  chan struct{}
+	returned chan c11Ret
+	once     sync.Once
+	want     int
+}
+
+func (c *c11DataCb) OnData(reader BufferReader) {
+	first := false
+	c.once.Do(func() { first = true })
+	if !first {
+		return
+	}
+	close(c.entered)
+	t0 := time.Now()
+	// wants a whole message, only half of it has arrived: parks in Stream.readMore (no deadline)
+	_, err := reader.ReadBytes(c.want)
+	c.returned <- c11Ret{0, err, time.Since(t0), time.Now()}
+}
+func (c *c11DataCb) OnLocalClose()  {}
+func (c *c11DataCb) OnRemoteClose() {}
+
+// is the process-wide dispatcher goroutine still running lambdas?
+func c11DispatcherAlive() bool {
+	ran := make(chan struct{})
+	defaultDispatcher.post(func() { close(ran) })
+	select {
+	case <-ran:
+		return true
+	case <-time.After(c11Bound):
+		return false
+	}
+}
+
+// kind = "ondata[-deferred-close]-{local-session-close|peer-session-close|peer-death|only|peer-close}"
+// returns wedged = the dispatcher no longer runs lambdas (nothing else can be run in this process)
+func c11OnData(id int, kind string, deferred bool, end string, delay int64, dir string) (c c11Case, wedged bool) {
+	c = c11Case{ID: id, Kind: kind, Delay: delay, Param: 8}
+	client, server, err := c11Pair(dir, nil, nil)
+	if err != nil {
+		c.Skip = err.Error()
+		return
+	}
+	defer func() {
+		client.Close()
+		server.Close()
+	}()
+	cst, sst, err := c11Streams(client, server)
+	if err != nil {
+		c.Skip = "stream setup: " + err.Error()
+		return
+	}
+	cb := &c11DataCb{entered: make(chan struct{}), returned: make(chan c11Ret, 1), want: 8}
+	if err = sst.SetCallbacks(cb); err != nil {
+		c.Skip = "SetCallbacks: " + err.Error()
+		return
+	}
+	if _, err = cst.Write([]byte("half")); err != nil {
+		c.Skip = "write: " + err.Error()
+		return
+	}
+	select {
+	case <-cb.entered:
+	case <-time.After(c11Bound):
+		c.Skip = "OnData was not called"
+		return
+	}
+	time.Sleep(30 * time.Millisecond) // let the read reach its select
+	select {
+	case r := <-cb.returned:
+		c.fail("%s: the read for 8 bytes returned although only 4 arrived (class %d)", kind, c11Class(r.err))
+		return
+	default:
+	}
+	if deferred {
+		// a callback is in progress: Close only marks the stream and returns
+		done := c11Call(func() (int, error) { return 0, sst.Close() })
+		if c11Await(done, c11Bound) == nil {
+			c.fail("%s: Stream.Close blocked", kind)
+		}
+	}
+	c11Sleep(delay)
+	t := time.Now()
+	waitFor := c11Bound
+	switch end {
+	case "local-session-close":
+		server.Close()
+	case "peer-session-close":
+		client.Close()
+	case "peer-death":
+		syscall.Shutdown(client.connFd, syscall.SHUT_RDWR)
+	case "peer-close":
+		cst.Close()
+		waitFor = 1500 * time.Millisecond
+	case "only":
+		waitFor = 1500 * time.Millisecond
+	}
+	var ret *c11Ret
+	select {
+	case r := <-cb.returned:
+		ret = &r
+	case <-time.After(waitFor):
+	}
+	if ret == nil && (end == "only" || end == "peer-close") {
+		// one root cause, one signature: Stream.Close that finds a callback in progress only CASes the state
+		// to halfClosed (no safeCloseNotify), and the peer's close then fails its CAS in halfClose
+		c.Class = 8
+		c.fail("ondata-deferred-close: a read parked inside OnData is not released by Stream.Close (neither local nor the peer's): only the death of the session releases it")
+	} else {
+		c.record(ret, t, 2, 3)
+	}
+	if ret == nil {
+		// do not leave the reader parked: the death of the session must release it
+		if end == "only" || end == "peer-close" {
+			server.Close()
+			select {
+			case <-cb.returned:
+			case <-time.After(c11Bound):
+				c.fail("%s: the read blocked in OnData was not released even by Session.Close", kind)
+			}
+		}
+	}
+	if !c11DispatcherAlive() {
+		c.fail("%s: the process-wide dispatcher no longer runs posted lambdas (wedged behind the blocked OnData)", kind)
+		wedged = true
+	}
+	return
+}
+
 func TestVerif_C11(t *testing.T) {
 	seed := uint64(venvInt("VERIF_SEED", 1))
 	reps := venvInt("VERIF_N", 2) // repetitions of every (kind, delay) pair
@@ -710,4 +973,40 @@ func TestVerif_C11(t *testing.T) {
 		id++
 	}
 	emit(c11FlushFull(id, 4, 35, dir))
+	id++
+	time.Sleep(300 * time.Millisecond)
+	emit(c11SendChFull(id, dir))
+	id++
+	// reads blocked inside OnData: a lost wake-up here wedges the process-wide dispatcher, so these run
+	// last, one at a time, and the run stops at the first wedge
+	type od struct {
+		deferred bool
+		end      string
+	}
+	var ods []od
+	for _, e := range []string{"local-session-close", "peer-session-close", "peer-death"} {
+		ods = append(ods, od{false, e})
+	}
+	for rep := 0; rep < 1+reps/2; rep++ {
+		for _, e := range []string{"local-session-close", "peer-session-close", "peer-death"} {
+			ods = append(ods, od{true, e})
+		}
+	}
+	ods = append(ods, od{true, "only"}, od{true, "peer-close"})
+	for _, o2 := range ods {
+		kind := "ondata-" + o2.end
+		if o2.deferred {
+			kind = "ondata-deferred-close-" + o2.end
+		}
+		d := delays[r.intn(len(delays))]
+		if d > 0 {
+			d = d/2 + int64(r.intn(int(d)))
+		}
+		c, wedged := c11OnData(id, kind, o2.deferred, o2.end, d, dir)
+		emit(c)
+		id++
+		if wedged {
+			break
+		}
+	}
 }
